@@ -108,6 +108,13 @@ def gen_spec(seed, stream, max_sweeps):
             "perturb": perturb, "wild": wild, "fail_p": fail_p, "max_sweeps": max_sweeps, "sweeps": rng.randint(1, max_sweeps)}
 
 
+def fixed_selfpair_spec():
+    """the design's witness of the known finding, independent of VERIF_SEED: two (a, a) rows + one single-agent row"""
+    return {"stream": "selfpair", "case_seed": 8008, "fixed": "selfpair-witness", "nC": 1, "nT": 2, "D": 2,
+            "rows": [[0, 0, 0], [0, 0, 0], [0, 1, -1]], "obs": [0.2, 0.7, 0.4], "perturb": False, "wild": False,
+            "fail_p": 0.0, "max_sweeps": 1, "sweeps": 1}
+
+
 def build_model(spec):
     from batchie.data import Screen, ExperimentSpace
     from batchie.models.sparse_combo import SparseDrugCombo
@@ -650,6 +657,8 @@ def run_case(spec, res, queue, report=True):
     from scipy.special import logit
     case = {"case_seed": spec["case_seed"], "stream": spec["stream"], "max_sweeps": spec["max_sweeps"], "nC": spec["nC"],
             "nT": spec["nT"], "D": spec["D"], "rows": spec["rows"], "sweeps": spec["sweeps"]}
+    if spec.get("fixed"):
+        case["fixed"] = spec["fixed"]
     rng = random.Random(spec["case_seed"] ^ 0x5EED)
     model, screen = build_model(spec)
     w = model.wrapped_model
@@ -772,7 +781,12 @@ def run(ctx, res):
         if t < 4:
             res.sample({k: spec[k] for k in ("stream", "case_seed", "nC", "nT", "D", "rows", "sweeps")})
     rng = ctx.subrng("selfpair")
-    for t in range(ctx.scale(6, 40, 20)):
+    n_known = len(res.oracle_failures)
+    res.count("selfpair.cases")
+    run_case(fixed_selfpair_spec(), res, queue)
+    if not any(f["signature"] == "C08:self-pair-cache" for f in res.oracle_failures[n_known:]):
+        res.notes.append("the fixed self-pair witness no longer shows a stale cache (known finding C08:self-pair-cache may be fixed)")
+    for t in range(ctx.scale(5, 40, 20)):
         spec = gen_spec(rng.randrange(2 ** 48), "selfpair", 2)
         res.count("selfpair.cases")
         run_case(spec, res, queue)
@@ -804,7 +818,10 @@ def replay(ctx, case, res):
         if not close(got, want, np.max(np.abs(want)), tol=1e-11 * np.linalg.cond(Q)):
             res.fail("sample_mvn_from_precision(Q, mu_part, z) is not U^-1 z + Q^-1 mu_part", case, got.tolist(), want.tolist(), "C08:mvn")
         return
-    spec = gen_spec(case["case_seed"], case["stream"], case.get("max_sweeps", 3))
+    if case.get("fixed") == "selfpair-witness":
+        spec = fixed_selfpair_spec()
+    else:
+        spec = gen_spec(case["case_seed"], case["stream"], case.get("max_sweeps", 3))
     queue = []
     run_case(spec, res, queue)
     if ctx.driver is not None and queue:
